@@ -104,8 +104,8 @@ def handle : Handler
     | .error e => some (obj [("outcome", "error"), ("kind", e.kind), ("kinds", kindsJ (e :: mergeErrs F inputs))])
     | .ok s =>
       let tum := TUM.build F inputs
-      let view := reloadView s
-      let final : Except Fault Schema := if sanitize then sanitizeNode F view else .ok view
+      let _ := s
+      let final : Except Fault Schema := run F sanitize inputs
       let queries := (getArr j "geturl").map (fun q => (asArr q).map asStr)
       let answers := queries.map (fun q =>
         match q with
